@@ -48,7 +48,7 @@ func encStr(s string) string {
 	if s == "" {
 		return "~"
 	}
-	return s
+	return esc(s)
 }
 func (s fanState) enc() string {
 	return fmt.Sprintf("%s,%s,%d,%d", f32s(s.Pct), encStr(s.Preset), s.Index, s.Dir)
@@ -314,7 +314,7 @@ func init() {
 	decoders["fan/seq"] = decoder[fanSeq]()
 	builders = append(builders, func(f lib.Flags, res *lib.Result, rng *rand.Rand) []*section {
 		s := &section{name: "fan/seq",
-			tie: res.Tie("fanspeed.ModelServer.UpdateFanSpeed sequences", "K1", "random: DefaultPresets 40% / WithPresets 1..5 presets with percentages k/4 (10% duplicate percentage, 5% duplicate name, 3% empty name, 2% empty list) 60%; default initial fan speed 70% / random initial 30%; 1..8 updates: written fields chosen among percentage/preset/preset_index/direction, absolute 65% / relative 35%, update mask = exactly the written fields 55% / none 35% / other subset 10%; preset names known 90%; indices in -3..len+2; excluded points (a write that clears the preset of a fan that has one) are generated on purpose (about 25% of ops); non-trivial = has an op; distinct by request line"),
+			tie: res.Tie("fanspeed.ModelServer.UpdateFanSpeed sequences", "K1", "random: DefaultPresets 40% / WithPresets 1..5 presets with percentages k/4 (10% duplicate percentage, 5% duplicate name, 3% empty name, 2% empty list) 60%; default initial fan speed 70% / random initial 30%; 1..8 updates: written fields chosen among percentage/preset/preset_index/direction, absolute 65% / relative 35%, update mask = exactly the written fields 55% / none 35% / other subset 10%; preset names: configured 77%, near-miss of a configured name (case variant, leading/trailing space or no-break space, prefix, extension, unicode look-alike) 13%, unrelated 10%; indices in -3..len+2; excluded points (a write that clears the preset of a fan that has one) are generated on purpose (about 25% of ops); non-trivial = has an op; distinct by request line"),
 			mon: res.Monitor("fanspeed.precedence and consistency vs table lookup", "preset > index > percentage by table lookup, index clamped, fields outside the update mask unchanged, consistency (preset != '' => presets[index] = (preset, percentage); preset == '' => index = -1 and no preset has that percentage) preserved at every non-excluded write; unknown preset => InvalidArgument and no change; no panic with a non-empty preset list")}
 		n := f.N(2000, 25000)
 		for i := 0; i < n; i++ {
@@ -374,6 +374,9 @@ func init() {
 					case "preset":
 						if len(ps) > 0 {
 							o.Preset = pick(rng, ps).Name
+							if rng.Intn(100) < 15 {
+								o.Preset = nearMiss(rng, o.Preset) // must be rejected exactly like an unknown name
+							}
 						}
 						if rng.Intn(10) == 0 {
 							o.Preset = "nopreset"
@@ -401,7 +404,7 @@ func init() {
 		}
 		// K2: DeriveValues branch selection, exhaustive over a small single-write domain
 		x := &section{name: "fan/derive-exhaustive",
-			tie: res.Tie("fanspeed.DeriveValues branch selection", "K2", "exhaustive: presets off/0 low/15 med/40; old state in {off, low, med, none@50}; one write with percentage in {0,15,50}, preset in {'', low, med}, preset_index in {-1,0,1,5}, absolute/relative, update mask in {none, percentage, preset, preset_index, preset+preset_index, percentage+preset_index}; non-trivial = all; distinct by request line"),
+			tie: res.Tie("fanspeed.DeriveValues branch selection", "K2", "exhaustive: presets off/0 low/15 med/40; old state in {off, low, med, none@50}; one write with percentage in {0,15,50}, preset in {'', low, med, and the near-misses LOW, ' low', lo}, preset_index in {-1,0,1,5}, absolute/relative, update mask in {none, percentage, preset, preset_index, preset+preset_index, percentage+preset_index}; non-trivial = all; distinct by request line"),
 			mon: res.Monitor("fanspeed.branch selection vs table lookup", "same spec as fanspeed.precedence, on the exhaustive small domain")}
 		x.tie.Exhaustive = true
 		ps3 := []fanPreset{{"off", 0}, {"low", 15}, {"med", 40}}
@@ -410,7 +413,7 @@ func init() {
 		for _, old := range olds {
 			old := old
 			for _, pct := range []float32{0, 15, 50} {
-				for _, pre := range []string{"", "low", "med"} {
+				for _, pre := range []string{"", "low", "med", "LOW", " low", "lo"} {
 					for _, idx := range []int32{-1, 0, 1, 5} {
 						for _, rel := range []bool{false, true} {
 							for _, mk := range masks {
